@@ -179,7 +179,7 @@ def _deco_args(sig):
         parts.append("eager=True")
     o = sig.get("options") or {}
     for k in o:
-        if k not in ("data_first_search", "case_insensitive"):
+        if k not in ("data_first_search", "case_insensitive", "collect_errors"):
             raise HarnessError("bad function option")
     if o:
         parts.append("options=utype.Options(" + ", ".join(f"{k}={v!r}" for k, v in sorted(o.items())) + ")")
@@ -551,6 +551,8 @@ def cases(draw):
            "ret": draw(st.sampled_from([None, "int", "pos", "str", "list", "data"]))}
     if draw(st.sampled_from([False, False, True])):
         sig["options"] = {"data_first_search": True}
+    if draw(st.sampled_from([False, False, True])):
+        sig.setdefault("options", {})["collect_errors"] = True
     if wrapper in ("gen", "asyncgen"):
         sig["yield_t"] = draw(st.sampled_from(["none", "int", "str", "pos"]))
         sig["send_t"] = draw(st.sampled_from(["none", "int", "str"]))
